@@ -98,7 +98,8 @@ Proof.
 Qed.
 
 (* the text codec round trips on what it can carry *)
-Variables (dumps : jv -> B) (loads : B -> option jv).
+Context {Text : Type}.
+Variables (dumps : jv -> Text) (loads : Text -> option jv).
 Hypothesis loads_dumps : forall j, pure j = true -> uniq j = true -> loads (dumps j) = Some j.
 
 Theorem deserialize_serialize (v : jv) : no_bang v = true -> uniq v = true ->
